@@ -1,14 +1,37 @@
+use crate::mir::Facts;
 use crate::model::Model;
 use crate::report::Ctx;
 use serde_json::Value;
 
 pub mod util;
 pub mod c03;
+pub mod c08;
+
+const NEEDS_MIR: [&str; 4] = ["C08", "C11", "C12", "C20"];
 
 pub fn dispatch(prop: &str, m: &Model, ctx: &mut Ctx, facts: Option<&Value>) -> bool {
-    let _ = facts;
+    let mut loaded: Option<Facts> = None;
+    if NEEDS_MIR.contains(&prop) {
+        match facts {
+            None => {
+                ctx.fail_closed("facts", "this property needs the MIR fact file (--facts)");
+                return true;
+            }
+            Some(v) => match Facts::load(v) {
+                Ok(f) => {
+                    ctx.extra.insert("mir_crates".into(), serde_json::json!(f.crates));
+                    loaded = Some(f)
+                }
+                Err(e) => {
+                    ctx.fail_closed("facts", &e);
+                    return true;
+                }
+            },
+        }
+    }
     match prop {
         "C03" => c03::run(m, ctx),
+        "C08" => c08::run(m, ctx, loaded.as_ref().unwrap()),
         _ => return false,
     }
     true
